@@ -462,5 +462,11 @@ def record_intensity(ctx):
     return res
 
 
-RULES = [wmw_intensity, write_shape, beer_lambert, lost_write, aperture,
+def no_stale(ctx):
+    from .common import stale_cache
+    return stale_cache(ctx, 'NO-STALE-STATE', ['SimpleCoating', 'IdealMaterial', 'Mirror'],
+                       'the attenuation refers to an earlier call', min_methods=3)
+
+
+RULES = [no_stale, wmw_intensity, write_shape, beer_lambert, lost_write, aperture,
          coating_pair, record_intensity]
